@@ -258,7 +258,7 @@ func checkFieldFacts(c *Ctx, r *Report) {
 					bt = p.Elem()
 				}
 				nt, ok := bt.(*types.Named)
-				if !ok || nt.Obj() != aes.Obj() || f == nil || f.Name() != "cipher" {
+				if !ok || nt.Obj() != aes.Obj() || f == nil || f.Name() != fAesCipher {
 					return
 				}
 				n++
@@ -296,7 +296,7 @@ func checkFieldFacts(c *Ctx, r *Report) {
 			if len(f) == 0 {
 				return
 			}
-			lenV, hashV := f["length"], stripConv(f["Hash"])
+			lenV, hashV := f[fTruncLen], stripConv(f["Hash"])
 			good := false
 			why := "cannot relate the truncation length to the digest size"
 			if k, isK := constInt(lenV); isK {
